@@ -774,6 +774,9 @@ def compute_kdf_context(
     l1: int,
     l2: int,
 ) -> bytes:
+    if not all(-(2**31) <= v < 2**31 for v in (l0, l1, l2)):
+        raise ValueError(f"Group key identifier ({l0}, {l1}, {l2}) is out of range")
+
     return b"".join(
         [
             key_guid.bytes_le,
